@@ -542,3 +542,25 @@ func zz06Beyond(t *zzT, c bool, label string) {
 //zz:stub (*github.com/supranational/blst/bindings/go.P2Affine).Uncompress zz06StubP2Uncompress
 //zz:stub (*github.com/supranational/blst/bindings/go.P2Affine).FastAggregateVerify zz06StubFastAggregateVerify
 func zzH_C03_aggregate_commit_window(t *zzT) { zzH_C06_commit_height_window(t) }
+
+
+// C15 "every block the generator produces is accepted by the same node's block validation … including its
+// aggregate commit": the generator fills header.AggregateCommit from Executer.GetAggregateCommit — same
+// obligation as zzH_C06_commit_height_choice (height within (maxHeightCertified, min(maxHeightPrecommited,
+// nextParamsHeight-1)]), registered under C15 as well (seed C15-7: the cap below the next parameter change
+// applied with < instead of <=).
+//
+//zz:opt loop=80 require=aggregated,empty
+//zz:quick K=2 NO=4 CO=3
+//zz:thorough K=2 NO=5 CO=4 budget=600s
+//zz:stub (*~/pkg/consensus/liskbft.API).GetBFTHeights zz06StubGetBFTHeights
+//zz:stub (*~/pkg/consensus/liskbft.API).NextHeightBFTParameters zz06StubNextHeightBFTParameters
+//zz:stub (*~/pkg/consensus/liskbft.API).GetBFTParameters zz06StubGetBFTParameters
+//zz:stub (*~/pkg/consensus/liskbft.BFTParams).Validators zz06StubValidators
+//zz:stub (*~/pkg/consensus/liskbft.BFTParams).CertificateThreshold zz06StubCertificateThreshold
+//zz:stub ~/pkg/crypto.BLSSign zz06StubBLSSign
+//zz:stub (*github.com/supranational/blst/bindings/go.P2Affine).Uncompress zz06StubP2Uncompress
+//zz:stub (*github.com/supranational/blst/bindings/go.P2Affine).Compress zz06StubP2Compress
+//zz:stub (*github.com/supranational/blst/bindings/go.P2Aggregate).Aggregate zz06StubAggregate
+//zz:stub (*github.com/supranational/blst/bindings/go.P2Aggregate).ToAffine zz06StubToAffine
+func zzH_C15_aggregate_commit_height_choice(t *zzT) { zzH_C06_commit_height_choice(t) }
